@@ -26,10 +26,11 @@ PROPS = {
     "C10": dict(fams=[walkfam("quota", "wake", 320, 5000), walkfam("ops", "wake", 160, 2000), genfam("quota-fill", "quotafill", 1, 1), tlcfam("MC_Ops")], design=["MC_Ops"]),
     "C11": dict(fams=[genfam("wrap", "wrap", 1, 1), walkfam("ops", "wake", 80, 1000), tlcfam("MC_Ids")], design=["MC_Ids"]),
     "C12": dict(fams=[genfam("size", "size", 1, 1), tlcfam("MC_Ops")], design=["MC_Ops"]),
-    "C13": dict(fams=[walkfam("life", "wake", 400, 6000), genfam("first", "first", 1, 1), tlcfam("MC_Life")], design=["MC_Life"]),
-    "C14": dict(fams=[walkfam("life", "wake", 400, 6000), walkfam("mixed", "wake", 160, 3000), tlcfam("MC_Life")], design=["MC_Life"]),
+    "C13": dict(fams=[walkfam("life", "wake", 400, 6000), genfam("first", "first", 1, 1), genfam("endings", "endings", 1, 1), tlcfam("MC_Life")], design=["MC_Life"]),
+    "C14": dict(fams=[walkfam("life", "wake", 400, 6000), walkfam("mixed", "wake", 160, 3000), genfam("endings", "endings", 1, 1), tlcfam("MC_Life")], design=["MC_Life"]),
     "C15": dict(fams=[walkfam("cancel", "wake", 400, 6000), walkfam("mixed", "wake", 160, 3000), tlcfam("MC_Life"), tlcfam("MC_Ops")], design=["MC_Life"]),
     "C16": dict(fams=[walkfam("wake", "wake", 160, 2000), walkfam("wake", "sweep", 160, 2000), walkfam("wake", "spur", 160, 2000),
+                      walkfam("wakechunk", "wake", 240, 3000), walkfam("wakechunk", "sweep", 160, 2000),
                       genfam("disc-compare", "disccmp", 1, 1), tlcfam("MC_Wake")], design=["MC_Wake"]),
     "C17": dict(fams=[genfam("resume", "resume", 1, 1)], design=["MC_Resume"]),
 }
@@ -231,9 +232,10 @@ def run(prop, tier):
     for key, v in sorted(verdicts.items(), key=lambda kv: (kv[0][0], kv[0][1])):
         if v is None:
             continue
-        if v[0] == "TOOL":
+        tags = v[0] if isinstance(v[0], list) else [v[0]]
+        if "TOOL" in tags:
             tool.append((key, v))
-        elif v[0] != prop:
+        elif prop not in tags:
             tainted += 1
         else:
             f = vlib.match_finding(findings, prop, v)
@@ -249,7 +251,7 @@ def run(prop, tier):
         print("TOOL-ERROR: design configuration %s violates %s (see %s)" % (dres["cfg"], dres["violation"], dres.get("replay")))
         return 2
     evaluated = [k for k in verdicts]
-    clean_or_own = [k for k, v in verdicts.items() if v is None or v[0] == prop]
+    clean_or_own = [k for k, v in verdicts.items() if v is None or prop in (v[0] if isinstance(v[0], list) else [v[0]])]
     sigs = set()
     for k in clean_or_own:
         st = stats.get(k)
@@ -320,6 +322,6 @@ def replay(path):
     rc = 0
     for k, v in verdicts.items():
         print(os.path.basename(k[0]), "run", k[1], "->", "explained by the reference" if v is None else v)
-        if k[0].endswith("fresh.ndjson") and v is not None and v[0] == prop:
+        if k[0].endswith("fresh.ndjson") and v is not None and prop in (v[0] if isinstance(v[0], list) else [v[0]]):
             rc = 1
     return rc
